@@ -105,6 +105,34 @@ STRENGTHENED6 = {
     "C16": "chains: points strung along a line, weights growing along it, reach of one step (ascent paths of up to n-1 moves)",
     "C20": "test sets made of the training environments, re-cut into as many differently sized structures",
 }
+STRENGTHENED7 = {
+    "C01": "CUR-family items in mixed units (one to three of order one, the rest 6 to 8 decades smaller)",
+    "C02": "one table of more than 2^24 numbers per run, judged by a streaming oracle (direct squared differences to the picks)",
+    "C03": "sample-space routes at 1025 / 1026 / 2049 rows",
+    "C04": "mixings 1 - 2^-18 and 1 - 2^-21 on a well-conditioned table with exactly tied principal directions (tolerance 1e-9)",
+    "C05": "(one case in four runs with scikit-learn's working_memory lowered to 1 KiB - added after reading the sub-agents' reports, before the first run)",
+    "C06": "the switching point changed between two links of a warm chain (from a value that never prunes to one that does)",
+    "C07": "tables with more than 65536 items on the long side (plain CUR, k = 2 or 3; thin-SVD oracle)",
+    "C08": "l: relative thresholds just below the smallest score ratio of the cold fit (which exposed the repository defect 0e32956); m: a chain from 32700 to 32800 selections on 33000 points (thorough tier)",
+    "C09": "the whole call chain on memoryview / __array__ holders of the arguments, the memory behind them compared byte by byte",
+    "C11": "(working_memory of 1 KiB, see C05)",
+    "C12": "the caller overwrites its weight array after fit, then transforms",
+    "C13": "l: a scale-only user scaler with all / some training points as neighbours against the explicit centred local ridge; m: one LRE call with more than 2^24 test x training pairs (tight group far from the bulk)",
+    "C14": "two-level factorial designs (exactly tied eigenvalues): losses never increase with k on the same arrays and configuration",
+    "C15": "l: -; m: NOT judged - the deviation is eps x cell, i.e. the exact result for a cell perturbed by one ulp (backward stable); the tolerance 1e-9 x (cell diagonal + |x|) accepts it deliberately",
+    "C16": "(integer weights beyond 2^53 - added after reading the sub-agents' reports, before the first run)",
+    "C17": "the whole configuration in another length unit (2^-200 .. 2^150), judged by the same oracles in that unit",
+    "C18": "l: whole-number features with an integer dtype next to real-valued targets; m: NOT judged - the optimum is decided by a singular value at the edge of double precision (cond 3e7 .. 8e7); the unchanged tree itself loses it at cond 1e8 in 1 % of the trials, so a check there could not be kept silent",
+    "C19": "l: queries in their own container (Fortran order ...) with hull columns in non-ascending order; m: a hull over more than 65536 samples judged by directional extremes and by 'no training sample below the hull'",
+    "C20": "l: NOT judged - alpha = 0 with a singular covariance is outside the closed form the property states (the pseudo-inverse convention there is the library's own); m: training sets whose global scale factor is within 1e-5 of one",
+}
+FIRST7 = {}
+_p7 = os.path.join(VERIF, "seeded", "round7_first_run.log")
+if os.path.exists(_p7):
+    for line in open(_p7):
+        m_ = re.match(r"(C\d\d-r7[lm])\s+C\d\d:(\w+)", line)
+        if m_:
+            FIRST7[m_.group(1)] = m_.group(2)
 FIRST6 = {}
 _p6 = os.path.join(VERIF, "seeded", "round6_first_run.log")
 if os.path.exists(_p6):
@@ -145,19 +173,29 @@ def squash(t, n):
     return t if len(t) <= n else t[: n - 1].rsplit(" ", 1)[0] + " ..."
 
 
-for mf in sorted(glob.glob(os.path.join(VERIF, "seeded", "*-r[23456]*", "meta.json"))):
+for mf in sorted(glob.glob(os.path.join(VERIF, "seeded", "*-r[234567]*", "meta.json"))):
     d = os.path.dirname(mf)
     m = json.load(open(mf))
     notes = open(os.path.join(d, "NOTES.md")).read()
     title = notes.splitlines()[0].lstrip("# ").strip()
-    title = re.sub(r"^(C\d\d\s*/?\s*)?(seed|defect)?\s*\(?[abcdefghijk]\)?\s*(?=[-—:(/ ])", "", title, flags=re.I).lstrip(" -—:/").strip()
+    title = re.sub(r"^(C\d\d\s*/?\s*)?(seed|defect)?\s*\(?[abcdefghijklm]\)?\s*(?=[-—:(/ ])", "", title, flags=re.I).lstrip(" -—:/").strip()
     m["breaks"] = squash(title, 220)
     m["needs"] = squash(section(notes, "need|manifest"), 330)
     kind = m["name"][-1]
-    m["kind"] = {"a": "history / state dependent", "b": "numeric regime dependent", "c": "configuration / argument-form dependent", "d": "boundary / extreme-size dependent", "e": "entry-point / protocol dependent", "f": "order / randomness / accumulation dependent", "g": "free choice (meant to survive a randomized oracle campaign)", "h": "failure in the history / exception safety", "i": "aliasing / exotic argument / caller environment", "j": "semantics-preserving rewrite with a hidden assumption", "k": "plausible but quantitatively wrong"}[kind]
+    m["kind"] = {"a": "history / state dependent", "b": "numeric regime dependent", "c": "configuration / argument-form dependent", "d": "boundary / extreme-size dependent", "e": "entry-point / protocol dependent", "f": "order / randomness / accumulation dependent", "g": "free choice (meant to survive a randomized oracle campaign)", "h": "failure in the history / exception safety", "i": "aliasing / exotic argument / caller environment", "j": "semantics-preserving rewrite with a hidden assumption", "k": "plausible but quantitatively wrong", "l": "interaction of two legal non-default options", "m": "free choice against the campaign as built"}[kind]
     rel = os.path.relpath(mf, VERIF)
     p = subprocess.run(["git", "-C", VERIF, "show", f"{FIRST}:{rel}"], capture_output=True, text=True)
     first = None
+    if "-r7" in m["name"]:
+        first = FIRST7.get(m["name"])
+        m["first_verdict"] = first
+        if m.get("not_judged"):
+            m["history"] = "not judged: " + m["not_judged"]
+        else:
+            m["history"] = "caught as filed" if first == "caught" else f"{first or 'not run'} as filed; caught after the check gained: {STRENGTHENED7.get(m['property'], '?')}"
+        json.dump(m, open(mf, "w"), indent=1)
+        print(m["name"], first, "|", m["breaks"][:80], "|", m["needs"][:60])
+        continue
     if "-r6" in m["name"]:
         first = FIRST6.get(m["name"])
         m["first_verdict"] = first
